@@ -11,7 +11,7 @@
    The digest H, the compressor and the decompressor are Section variables
    without any law: soundness must not depend on zstd being correct. *)
 From Coq Require Import List NArith Bool Arith.
-From DS Require Import Base.Bytes Base.Hash.
+From DS Require Import Base.Bytes Base.Hash Gen.Constants.
 Import ListNotations.
 
 (* ---------- coverter.go ---------- *)
@@ -86,9 +86,10 @@ Inductive fault :=
 | FIO                  (* the operation fails outright *)
 | FRead (n : nat)      (* a read fails after n bytes *)
 | FReplace (b : bytes) (* the bytes read / written / in flight are replaced by b *)
-| FRespond (j : id) (b : bytes)
-    (* the peer answers with b LABELLED as chunk j (the casync CHUNK message carries a chunk id
-       next to the data); where an answer has no label this is FReplace b *).
+| FRespond (flags : N) (j : id) (b : bytes)
+    (* the peer answers with a casync CHUNK message: flags | chunk id j | data b (the message
+       carries flags -- "compressed" is bit 0 -- and a chunk id next to the data); where an
+       answer has neither this is FReplace b *).
 
 (* [w_obj k i] is the object stored for chunk i in backend k: ARBITRARY bytes
    (flipped, truncated, empty, another chunk's object, valid zstd of other
@@ -119,7 +120,7 @@ Definition raw_fetch (k : nat) (i : id) (w : world) : fetch * world :=
   let w' := w_log o w in
   match w_fault w (w_hist w) o with
   | FIO => (IOErr, w')
-  | FReplace b | FRespond _ b => (Found b, w')
+  | FReplace b | FRespond _ _ b => (Found b, w')
   | FRead n => match w_obj w k i with
                | Some b => (ReadErr (firstn n b), w')
                | None => (NotFound, w')
@@ -135,7 +136,7 @@ Definition raw_put (k : nat) (i : id) (b : bytes) (w : world) : res unit * world
   let w' := w_log o w in
   match w_fault w (w_hist w) o with
   | NoFault => (Ok tt, w_store k i b w')
-  | FReplace b' | FRespond _ b' => (Ok tt, w_store k i b' w')
+  | FReplace b' | FRespond _ _ b' => (Ok tt, w_store k i b' w')
   | _ => (Err EOther, w')
   end.
 
@@ -438,7 +439,7 @@ Section ChunkVerify.
     match fl with
     | FIO | FRead _ => retry w2                       (* client.Do / ReadAll error *)
     | _ =>
-        let r' := match fl, r with FReplace b, R200 _ | FRespond _ b, R200 _ => R200 b | _, _ => r end in
+        let r' := match fl, r with FReplace b, R200 _ | FRespond _ _ b, R200 _ => R200 b | _, _ => r end in
         match r' with
         | R200 b => (new_chunk_from_storage i b (converters unc) skip, w2)
         | R404 => (Err EMissing, w2)
@@ -448,27 +449,42 @@ Section ChunkVerify.
     end.
 
   (* Protocol.RequestChunk, case CaProtocolChunk: the message body is flags | chunk id | data.
-     The id in the message is not used: the chunk is built for, and checked against, the id
-     that was REQUESTED. *)
-  Definition proto_answer (requested label : id) (body : bytes) : res chunk :=
+     Neither the flags nor the id in the message are used: the data is taken as a zstd frame and
+     the chunk is built for, and checked against, the id that was REQUESTED. *)
+  Definition proto_answer (requested label : id) (flags : N) (body : bytes) : res chunk :=
     new_chunk_from_storage requested body [Zstd] false.
 
   (* NOT the code: the client that believes the label ("use what the server says it sends").
      Kept for the refutation theorem that shows why the requested id must be used. *)
-  Definition proto_answer_respid (requested label : id) (body : bytes) : res chunk :=
+  Definition proto_answer_respid (requested label : id) (flags : N) (body : bytes) : res chunk :=
     new_chunk_from_storage label body [Zstd] false.
+
+  (* NOT the code: the client that believes the flags -- an answer whose "compressed" flag is
+     unset and whose data does not start with the zstd frame magic is taken as plain data through
+     NewChunk, the constructor for trusted data.  For the refutation theorem. *)
+  Definition zstd_magic : bytes := [40; 181; 47; 253]%N.
+  Fixpoint has_prefix (p b : bytes) : bool :=
+    match p, b with
+    | [], _ => true
+    | x :: p', y :: b' => N.eqb x y && has_prefix p' b'
+    | _ :: _, [] => false
+    end.
+  Definition proto_answer_trust_flags (requested label : id) (flags : N) (body : bytes) : res chunk :=
+    if (N.eqb (N.land flags CaProtocolChunkCompressed) 0 && negb (has_prefix zstd_magic body))%bool
+    then Ok (new_chunk body)
+    else new_chunk_from_storage requested body [Zstd] false.
 
   (* Protocol.RequestChunk against ProtocolServer.Serve (one request on a fresh session).
      The server labels its answer with chunk.ID() of what its store returned. *)
-  Definition proto_get_with (answer : id -> id -> bytes -> res chunk)
+  Definition proto_get_with (answer : id -> id -> N -> bytes -> res chunk)
              (h : nat) (inner : getter) (i : id) (w : world) : res chunk * world :=
     match inner w with
     | (Err EMissing, w1) =>
         let (fl, w2) := net h i w1 in
         match fl with
         | NoFault => (Err EMissing, w2)           (* CaProtocolMissing *)
-        | FReplace b => (answer i i b, w2)
-        | FRespond j b => (answer i j b, w2)
+        | FReplace b => (answer i i CaProtocolChunkCompressed b, w2)
+        | FRespond fg j b => (answer i j fg b, w2)
         | FIO => (Err EEof, w2)                   (* stream closed before the answer *)
         | FRead _ => (Err EOther, w2)             (* stream closed inside the answer *)
         end
@@ -480,9 +496,9 @@ Section ChunkVerify.
             let label := fst (chunk_id c1) in     (* SendProtocolChunk(chunk.ID(), ...) *)
             let (fl, w2) := net h i w1 in
             match fl with
-            | NoFault => (answer i label (zcomp b), w2)
-            | FReplace b' => (answer i label b', w2)
-            | FRespond j b' => (answer i j b', w2)
+            | NoFault => (answer i label CaProtocolChunkCompressed (zcomp b), w2)
+            | FReplace b' => (answer i label CaProtocolChunkCompressed b', w2)
+            | FRespond fg j b' => (answer i j fg b', w2)
             | FIO => (Err EEof, w2)
             | FRead _ => (Err EOther, w2)
             end
